@@ -156,7 +156,7 @@ Definition externals (ds : ads) : list string :=
 (* ------------------------------------------------------------------ report entries *)
 Inductive what :=
 | WBounds | WAux | WMeasure | WMeasureAttr | WAnc | WAncAttr | WFt | WFtAttr | WBFt | WBFtAttr
-| WGm | WGmAttr | WGmCoord | WCmInterval | WCmAttr | WOther.
+| WGm | WGmAttr | WGmCoord | WCmInterval | WCmAttr | WCompress | WCompressAttr | WOther.
 Inductive reason :=
 | RMissing | RDims | RFormat | RMissingExt | RIncompat | RNoBounds | RInconsistent | RNotUsed | ROtherReason.
 Definition msg : Type := string * what * reason.
@@ -166,6 +166,7 @@ Definition what_eqb (a b : what) : bool :=
   | WBounds, WBounds | WAux, WAux | WMeasure, WMeasure | WMeasureAttr, WMeasureAttr | WAnc, WAnc
   | WAncAttr, WAncAttr | WFt, WFt | WFtAttr, WFtAttr | WBFt, WBFt | WBFtAttr, WBFtAttr | WGm, WGm
   | WGmAttr, WGmAttr | WGmCoord, WGmCoord | WCmInterval, WCmInterval | WCmAttr, WCmAttr
+  | WCompress, WCompress | WCompressAttr, WCompressAttr
   | WOther, WOther => true
   | _, _ => false
   end.
@@ -994,6 +995,22 @@ Fixpoint dedup_anc (seen : list string) (l : list cons) : list cons :=
   | c :: r => if mem (c_ncvar c) seen then dedup_anc seen r else c :: dedup_anc (c_ncvar c :: seen) r
   end.
 
+(* fix4-2: the problems of the list variables (found in the scan of the file, recorded for no
+   particular parent) are included in the report of every variable that spans the dimension
+   of the list variable *)
+Definition compress_msgs (ds : ads) (v : var) : list msg :=
+  flat_map (fun l => match compress_of l with
+                     | Some c =>
+                         if fst (check_compress (a_dims ds) (split_ws c)) then []
+                         else if mem (v_name l) (v_dims v) then
+                           match split_ws c with
+                           | [] => [(v_name l, WCompressAttr, RFormat)]
+                           | _ => [(v_name l, WCompress, RMissing)]
+                           end
+                         else []
+                     | None => []
+                     end) (a_vars ds).
+
 (* the passes of _create_field_or_domain that follow the coordinates: they see the
    coordinate constructs, not the messages so far.
    Result: constructs, coordinate references, cell methods, messages, referenced variables *)
@@ -1021,7 +1038,7 @@ Definition field_rest (strict : bool) (ds : ads) (v : var) (fdims : list string)
   np <- opt_pass (attr v "ancillary_variables") ([], [])
           (if strict then anc_pass_head ds field else anc_pass ds field) ;;
   ROk (coords ++ ancs ++ fst mp ++ fst np, ftrefs ++ gmrefs, fst cp,
-       ftms ++ gmms ++ snd mp ++ snd cp ++ snd np,
+       ftms ++ gmms ++ snd mp ++ snd cp ++ snd np ++ (if strict then [] else compress_msgs ds v),
        flat_map cons_refs (coords ++ ancs) ++ gmvars ++
        filter (fun n => negb (String.eqb n field)) (map c_ncvar (fst mp)) ++
        map c_ncvar (fst np)).
